@@ -220,6 +220,11 @@ def check_cells(rec, case):
                 if quiet.kind not in ("error", "tokenerror"):
                     rec.fail(dict(case, mode=mode), f"rejected-input-accepted-under-py_version:{quiet.kind}", {"mode": mode, "py_version": v})
                     return
+                if v < (3, 12) and quiet.kind == "error" and "supported in Python" not in str(quiet.fields[1]) and quiet.canon() != bc:
+                    # an earlier target version may add ONE thing to a rejected input: the report that a construct needs a
+                    # later Python; when that is not what is reported, the report is the one every other version gets
+                    rec.fail(dict(case, mode=mode), "py_version-changes-ungated-error", {"mode": mode, "py_version": v, "default": [str(x)[:200] for x in bc], "got": [str(x)[:200] for x in quiet.canon()]})
+                    return
                 if v >= (3, 12) and quiet.canon() != bc:
                     rec.fail(dict(case, mode=mode), "py_version>=3.12-changes-error", {"mode": mode, "py_version": v, "default": [str(x)[:200] for x in bc], "got": [str(x)[:200] for x in quiet.canon()]})
                     return
